@@ -355,3 +355,39 @@ for _p in ("C08", "C13"):
     SPECS[_p].thorough_extra = SPECS[_p].thorough_extra + errgroup_extra(_p)
     SPECS[_p].assumptions = SPECS[_p].assumptions + ERRGROUP_ASSUME
     SPECS[_p].modelled = SPECS[_p].modelled + ["golang.org/x/sync/errgroup (third-party, pinned by /repo/go.mod): Model/Errgroup.v, written by hand from errgroup.go, tied by stage errgroup"]
+
+# C07 (auditd half) and C15 ("unparsable line"): go-libaudit's header-level line parser is inside the model (Model/Auparse.v);
+# the tie to the real library is the auparse stage, in both tiers
+def _auparse_stage(pid, quick, thorough):
+    return ("auparse", {}, ["-prop", pid] + thorough, False, ["-prop", pid] + quick)
+
+
+AUPARSE_ASSUME = [
+    "auparse.ParseLogLine (header level) is inside the model: Model/Auparse.v follows go-libaudit v2.3.3 auparse.go / zaudit_msg_types.go statement by statement (ParseLogLine: strings.Index for 'msg=', the msgIndex < 6 test, the "
+    "type-name slice line[5:msgIndex-1]; GetAuditMessageType: ToUpper, table lookup, the UNKNOWN[n] fallback via IndexByte and ParseUint(.,10,16); Parse: TrimSpace, parseAuditHeader with its four IndexRune searches, "
+    "ParseInt(.,10,64) twice, ParseUint(.,10,32), time.Unix(sec, msec*1e6) incl. the int64 wrap, indexOfMessage) over exact models of strconv.ParseInt/ParseUint base 10 (Go 1.23.5: sign, empty, non-digits, the cutoff test, the wrapping add, "
+    "range errors at 2^63 / 2^64 / 2^32 / 2^16) and of strings.TrimSpace / ToUpper on ASCII; every slice expression is a possible panic outcome, PROVED never to occur; the message-type table is a parameter of every theorem "
+    "(no contract assumed); the tie to the real library is the auparse stage (both tiers): the real ParseLogLine, GetAuditMessageType, strconv, TrimSpace and time.Unix on generated inputs against the model in Coq "
+    "(result class by the library's own error values, RecordType, Timestamp as (Unix(), Nanosecond()), Sequence, the unexported offset, RawData), the table being the library's own map dumped on every run; "
+    "plus oracles from the construction of the input (trailing ASCII white space never changes the result; well-formed lines yield the generated fields; no panic)",
+    "outside the auparse model, as the explicit outcome PUnmodelled (never compared, but the harness' flag computed from the bytes alone must then be set; every theorem holds of that outcome too, i.e. the domain is closed "
+    "under appending ASCII white space): a byte >= 0x80 in the type-name position (strings.ToUpper maps runes there: U+017F upper-cases to 'S'), a byte >= 0x80 at either end of the text behind 'msg=' once its ASCII white space is "
+    "removed (strings.TrimSpace's unicode.IsSpace fallback); not modelled at all: key/value parsing of the message body (AuditMessage.Data, kvRegex, normalizeAuditMessage, aucoalesce)",
+]
+AUPARSE_MODELLED = ["go-libaudit v2.3.3 auparse/auparse.go (ParseLogLine, Parse, parseAuditHeader, indexOfMessage) and auparse/zaudit_msg_types.go (GetAuditMessageType), strconv.ParseInt/ParseUint base 10, "
+                    "strings.TrimSpace/ToUpper (ASCII), time.Unix: Model/Auparse.v, hand-written, tied by the auparse stage"]
+
+for _p, _q, _t in (("C07", ["-n", "360"], ["-n", "6000", "-nums", "3000", "-types", "1500", "-trims", "1200"]),
+                   ("C15", ["-n", "360"], ["-n", "6000", "-nums", "3000", "-types", "1500", "-trims", "1200"])):
+    SPECS[_p].thorough_extra = SPECS[_p].thorough_extra + [_auparse_stage(_p, _q, _t)]
+    SPECS[_p].extra_targets = SPECS[_p].extra_targets + ["Model/AuparseCheck.vo"]
+    SPECS[_p].assumptions = SPECS[_p].assumptions + AUPARSE_ASSUME
+    SPECS[_p].modelled = SPECS[_p].modelled + AUPARSE_MODELLED
+
+# the parser is an oracle ARGUMENT of the C15 processor theorems (they hold for every parser); which lines the real one rejects is
+# now modelled and proved (C15_parse_*), and C15_parse_stops_at instantiates C15_parse_first with it
+SPECS["C15"].assumptions[0] = (
+    "aucoalesce.CoalesceMessages/ResolveIDs, the After comparison and the correlator are oracles (explicit arguments of every theorem); "
+    "auparse.ParseLogLine is an explicit argument of the processor theorems too (they hold for every parser) AND is modelled: C15_parse_accepts_iff / "
+    "_err_header_iff / _err_type_iff / _unmodelled_iff say exactly which lines it accepts and rejects, C15_parse_stops_at is C15_parse_first with the "
+    "modelled parser as the oracle (streams inside the modelled domain); level 2 instantiates the correlator with Model/Tracker.v")
